@@ -153,6 +153,10 @@ func specsC03(tier string) []seqmc.Spec {
 		}{{"i1", 1}, {"i2", 1}, {"i2", 2}} {
 			cfg.ops = append(cfg.ops, op{kind: "upd", target: "t1", ts: pv.v, prefix: ps(pv.pre), ups: []updSpec{{ps("s"), pv.v}}, sharedPath: true})
 		}
+		// a leaf whose path has an element SPELLED like the wildcard (a list entry
+		// keyed by "*"): legal in an update path, stored, queried and announced
+		// like any other leaf
+		cfg.ops = append(cfg.ops, upd("t1", "w/*/v", 1, 1), upd("t1", "w/*/v", 2, 2))
 		// an update BELOW an existing leaf (x, or the atomic group k): refused,
 		// nothing stored, nothing evicted, nothing announced
 		cfg.ops = append(cfg.ops, upd("t1", "x/y", 3, 1), upd("t1", "k/m/z", 3, 1))
